@@ -38,9 +38,15 @@ fn talk_reqs() -> Vec<(NodeAddress, Vec<u8>, Vec<u8>)> {
     vec![(a.clone(), vec![1], b"q0".to_vec()), (a, vec![2], b"q1".to_vec()), (b, vec![1], b"q2".to_vec())]
 }
 
-async fn run_c20_async(hist: &[TEv]) -> Outcome<TEv> {
+async fn run_c20_async(known: bool, hist: &[TEv]) -> Outcome<TEv> {
     let mut node = SNode::start(SNodeSpec { keyno: 40, listen: listen4(9000), enr: None }, |_| {}, true).await;
     let reqs = talk_reqs();
+    if known {
+        // both requesters are in the routing table; the first one's record advertises another
+        // socket than the one its requests come from (moved / NATed peer)
+        node.discv5.add_enr(util::enr4(&util::key(41), 3, util::v4(10, 0, 0, 99, 9999))).expect("add");
+        node.discv5.add_enr(util::enr4(&util::key(42), 1, util::v4(10, 0, 0, 3, 9000))).expect("add");
+    }
     let n = reqs.len();
     let mut delivered = vec![false; n];
     let mut held: HashMap<u8, TalkRequest> = HashMap::new();
@@ -202,7 +208,17 @@ pub fn run_c20() {
     let limits = Limits { max_budget: 0, max_depth: 12, max_states: 2_000_000, wall_s: mc::budget(rep.thorough(), 45.0, 1.0) };
     let mut found = vec![];
     let mut samples = vec![];
-    let stats = mc::explore(&limits, |h: &[TEv]| rt::run(run_c20_async(h)), |v, _| found.push(v), |h, _| samples.push(format!("{:?}", h)));
+    let mut stats = mc::explore(&limits, |h: &[TEv]| rt::run(run_c20_async(false, h)), |v, _| found.push(v), |h, _| samples.push(format!("{:?}", h)));
+    // second world: the requesters are known to the routing table
+    let s2 = mc::explore(&limits, |h: &[TEv]| rt::run(run_c20_async(true, h)), |v, _| found.push(v), |h, _| samples.push(format!("known requesters: {:?}", h)));
+    stats.states += s2.states;
+    stats.transitions += s2.transitions;
+    stats.executions += s2.executions;
+    stats.distinct_terminals += s2.distinct_terminals;
+    stats.exhaustive &= s2.exhaustive;
+    for (k, v) in s2.counters {
+        *stats.counters.entry(k).or_insert(0) += v;
+    }
     rep.set("states", stats.states);
     rep.set("transitions", stats.transitions);
     rep.set("traces_validated_against_impl", stats.executions);
@@ -220,7 +236,7 @@ pub fn run_c20() {
     for s in samples.into_iter().take(3) {
         rep.sample(json!({"history": s}));
     }
-    rep.set("rule", "explicit-state BFS over all interleavings of {deliver TALKREQ i (two from one peer, one from another reusing an id), respond(i), drop(i), shutdown} on a real Discv5 with a scripted handler; state = history re-executed on a fresh service; exhaustive (the graph is finite)");
+    rep.set("rule", "explicit-state BFS over all interleavings of {deliver TALKREQ i (two from one peer, one from another reusing an id), respond(i), drop(i), shutdown} on a real Discv5 with a scripted handler, once with unknown requesters and once with both requesters in the routing table (one with a record advertising another socket than its source); state = history re-executed on a fresh service; exhaustive (the graph is finite)");
     rep.assume("the scripted handler emulates the real one in one respect: it drops its receiver when the service tells it to exit");
     for v in found {
         rep.violation(v);
@@ -625,6 +641,8 @@ pub struct VCfg {
     pub voters: Vec<u8>,
     pub addrs: u8,
     pub with_fail: bool,
+    /// events replayed before the explored history (contested starting states)
+    pub seed: Vec<VEv>,
 }
 
 const VOTE_DURATION: std::time::Duration = std::time::Duration::from_secs(30);
@@ -696,6 +714,9 @@ async fn run_c17_async(cfg: &VCfg, hist: &[VEv]) -> Outcome<VEv> {
     let mut prev = None;
     let mut counters: BTreeMap<&'static str, u64> = BTreeMap::new();
     let all_eligible = cfg.voters.iter().all(|k| *k == 0) && !cfg.with_fail && !cfg.dual;
+    let full: Vec<VEv> = cfg.seed.iter().cloned().chain(hist.iter().cloned()).collect();
+    let seed_len = cfg.seed.len();
+    let hist = &full[..];
     for (step, ev) in hist.iter().enumerate() {
         if step + 1 == hist.len() {
             counters.clear();
@@ -784,9 +805,11 @@ async fn run_c17_async(cfg: &VCfg, hist: &[VEv]) -> Outcome<VEv> {
         if after != before && !(changed4 || changed6) {
             violation = Some(mk("harness", "vote:other-change", "local record changed without an address change".into()));
         }
-        let c = mc::chain(prev, &format!("{:?}/{:?}/{}", after.udp4_socket(), after.udp6_socket(), after.seq()));
-        chain.push(c);
-        prev = Some(c);
+        if step >= seed_len {
+            let c = mc::chain(prev, &format!("{:?}/{:?}/{}", after.udp4_socket(), after.udp6_socket(), after.seq()));
+            chain.push(c);
+            prev = Some(c);
+        }
         if violation.is_some() {
             break;
         }
@@ -825,7 +848,7 @@ async fn run_c17_async(cfg: &VCfg, hist: &[VEv]) -> Outcome<VEv> {
 }
 
 pub fn debug_c17() {
-    let cfg = VCfg { dual: true, min: 2, voters: vec![0, 1, 0, 1], addrs: 3, with_fail: false };
+    let cfg = VCfg { dual: true, min: 2, voters: vec![0, 1, 0, 1], addrs: 3, with_fail: false, seed: vec![] };
     let h = vec![VEv::Pong(0, 0), VEv::PingRound, VEv::Pong(1, 1), VEv::PingRound, VEv::Pong(1, 0), VEv::Pong(0, 1)];
     for n in 1..=h.len() {
         let o = rt::run(run_c17_async(&cfg, &h[..n]));
@@ -837,18 +860,21 @@ pub fn run_c17() {
     let mut rep = Report::new("C17", "model_checking");
     let thorough = rep.thorough();
     let mut cfgs = vec![
-        VCfg { dual: false, min: 2, voters: vec![0, 0, 0, 0], addrs: 2, with_fail: false },
-        VCfg { dual: false, min: 3, voters: vec![0, 0, 0, 0, 0], addrs: 2, with_fail: false },
-        VCfg { dual: false, min: 2, voters: vec![0, 1, 2, 0], addrs: 2, with_fail: true },
-        VCfg { dual: true, min: 2, voters: vec![0, 1, 0, 1], addrs: 3, with_fail: false },
+        VCfg { dual: false, min: 2, voters: vec![0, 0, 0, 0], addrs: 2, with_fail: false, seed: vec![] },
+        VCfg { dual: false, min: 3, voters: vec![0, 0, 0, 0, 0], addrs: 2, with_fail: false, seed: vec![] },
+        VCfg { dual: false, min: 2, voters: vec![0, 1, 2, 0], addrs: 2, with_fail: true, seed: vec![] },
+        VCfg { dual: true, min: 2, voters: vec![0, 1, 0, 1], addrs: 3, with_fail: false, seed: vec![] },
     ];
+    // contested starting states: two addresses with 2:2 and 3:2 votes among five eligible voters
+    cfgs.push(VCfg { dual: false, min: 2, voters: vec![0, 0, 0, 0, 0], addrs: 3, with_fail: false, seed: vec![VEv::Pong(0, 0), VEv::Pong(1, 1), VEv::Pong(2, 0), VEv::Pong(3, 1)] });
+    cfgs.push(VCfg { dual: false, min: 3, voters: vec![0, 0, 0, 0, 0], addrs: 3, with_fail: false, seed: vec![VEv::Pong(0, 0), VEv::Pong(1, 1), VEv::Pong(2, 0), VEv::Pong(3, 1), VEv::Pong(4, 0), VEv::PingRound] });
     if thorough {
-        cfgs.push(VCfg { dual: false, min: 2, voters: vec![0, 0, 0, 0, 0], addrs: 3, with_fail: false });
-        cfgs.push(VCfg { dual: false, min: 3, voters: vec![0, 1, 2, 0, 1], addrs: 2, with_fail: true });
-        cfgs.push(VCfg { dual: true, min: 3, voters: vec![0, 0, 1, 1, 2], addrs: 3, with_fail: true });
+        cfgs.push(VCfg { dual: false, min: 2, voters: vec![0, 0, 0, 0, 0], addrs: 3, with_fail: false, seed: vec![] });
+        cfgs.push(VCfg { dual: false, min: 3, voters: vec![0, 1, 2, 0, 1], addrs: 2, with_fail: true, seed: vec![] });
+        cfgs.push(VCfg { dual: true, min: 3, voters: vec![0, 0, 1, 1, 2], addrs: 3, with_fail: true, seed: vec![] });
     }
     let depth = if thorough { 8 } else { 6 };
-    let budget = mc::budget(thorough, 45.0, 1.0);
+    let budget = mc::budget(thorough, 50.0, 1.0);
     let start = clock::wall();
     let (mut states, mut trans, mut execs) = (0u64, 0u64, 0u64);
     let mut counters: BTreeMap<&'static str, u64> = BTreeMap::new();
@@ -863,7 +889,8 @@ pub fn run_c17() {
             caps.push("wall budget".to_string());
             break;
         }
-        let limits = Limits { max_budget: 0, max_depth: depth, max_states: 2_000_000, wall_s: remaining };
+        let d = if cfg.seed.is_empty() { depth } else { depth - 2 };
+        let limits = Limits { max_budget: 0, max_depth: d, max_states: 2_000_000, wall_s: remaining };
         let mut vio = vec![];
         let mut samples = vec![];
         let stats = mc::explore(&limits, |h: &[VEv]| rt::run(run_c17_async(cfg, h)), |v, _| vio.push(v), |h, _| samples.push(format!("{:?}", h)));
